@@ -39,9 +39,9 @@ def classify (kind : String) (rest : List String) (d r : Obs) : String :=
   | none => "differ"
   | some p =>
     if (kind = "prog-aggsel" || kind = "prog-f4") && explainedBy p 0 d && !d.reverted && !r.reverted &&
-       decide (d.logs.map List.length = r.logs.map List.length) then "release-wrong-aggregate-param" else
+       decide (d.logs.length = r.logs.length) then "release-wrong-aggregate-param" else
     if (kind = "prog-selfupd" || kind = "prog-f6") && explainedBy p 0 d && !d.reverted && !r.reverted &&
-       decide (d.logs.map List.length = r.logs.map List.length) then "release-stale-self-update" else
+       decide (d.logs.length = r.logs.length) then "release-stale-self-update" else
     if explainedBy p 0 d && explainedBy p 0 r then
       (match run p FUEL with | .oob _ => "dyn-oob-garbage" | _ => "differ")
     else if (List.range 9).any (explainedBy p · d) && (List.range 9).any (explainedBy p · r) then "dead-trap-eliminated"
